@@ -76,7 +76,7 @@ class StreamGen:
         self.put(emit(p, self.rng))
 
     def proved_slots(self):
-        return [i for i, (kd, _) in enumerate(self.m.memory) if kd == 'T']
+        return [i for i, (kd, _) in enumerate(self.m.memory) if kd == 'T' and i < 256]      # Load takes a one-byte index
 
     def remember(self, t):
         if t[0] in ('i', 'a'):
@@ -339,6 +339,8 @@ class StreamGen:
         rng = self.rng
         cands = []
         for i in self.proved_slots():
+            if i > 255:
+                continue
             for m in T.metavars(self.m.memory[i][1]):
                 if any(m[2:7]):
                     cands.append((i, m))
